@@ -111,40 +111,78 @@ func runC17(c *an.Ctx) {
 	if bi := c.Fn("C17.total", `init/"isset"`); bi != nil {
 		binfo := bi.Info()
 		ok, why := false, "the isset built-in does not loop over all argument indexes"
+		// the loop: for v := 0; v < <Arguments>.NumOfArguments(); v++ (the bound may be held in a local)
+		var loop *ast.ForStmt
+		var loopVar types.Object
 		an.InspectOwn(bi, func(n ast.Node) bool {
-			fs, isFor := n.(*ast.ForStmt)
-			if !isFor {
-				return true
-			}
-			hdr := strings.ReplaceAll(an.StmtStr(fs.Init)+";"+an.Str(fs.Cond)+";"+an.StmtStr(fs.Post), " ", "")
-			if hdr != "i:=0;i<a.NumOfArguments();i++" {
-				why = "the isset loop is `for " + hdr + "`, not over every index 0 ≤ i < NumOfArguments()"
-				return true
-			}
-			// body: if !a.IsSet(i) { return valueBoolFALSE } and nothing that leaves the loop otherwise
-			good := len(fs.Body.List) == 1
-			if good {
-				is, isIf := fs.Body.List[0].(*ast.IfStmt)
-				good = isIf && strings.ReplaceAll(an.Str(is.Cond), " ", "") == "!a.IsSet(i)" && len(is.Body.List) == 1
-				if good {
-					ret, isRet := is.Body.List[0].(*ast.ReturnStmt)
-					good = isRet && len(ret.Results) == 1 && an.Str(ret.Results[0]) == "valueBoolFALSE"
+			if fs, isFor := n.(*ast.ForStmt); isFor && loop == nil {
+				if v, bound, counting := countingLoop(bi, fs); counting && bound == "$p0.NumOfArguments()" {
+					loop, loopVar = fs, v
+				} else {
+					why = "the isset loop is `for " + strings.ReplaceAll(an.StmtStr(fs.Init)+";"+an.Str(fs.Cond)+";"+an.StmtStr(fs.Post), " ", "") + "`, not over every index 0 ≤ i < NumOfArguments()"
 				}
-			}
-			if good {
-				ok = true
-			} else {
-				why = "the body of the isset loop is not exactly `if !a.IsSet(i) { return valueBoolFALSE }` (it may stop early or skip arguments)"
 			}
 			return true
 		})
-		if ok {
-			last := bi.Body.List[len(bi.Body.List)-1]
-			if ret, isRet := last.(*ast.ReturnStmt); !isRet || len(ret.Results) != 1 || an.Str(ret.Results[0]) != "valueBoolTRUE" {
-				ok, why = false, "isset does not answer true after all arguments passed"
+		if loop != nil {
+			boolVal := func(e ast.Expr) string {
+				switch an.Norm(bi, e) {
+				case "valueBoolTRUE", "reflect.ValueOf(true)":
+					return "T"
+				case "valueBoolFALSE", "reflect.ValueOf(false)":
+					return "F"
+				}
+				return "?"
+			}
+			asked := 0
+			hooks := an.Hooks{
+				Branch: func(x *an.Explorer, cond ast.Expr, val bool, st *an.State) {
+					e := an.Unparen(cond)
+					if e == an.Unparen(loop.Cond) && !val {
+						st.Set("exhausted", "1")
+					}
+					neg := false
+					if u, isNot := e.(*ast.UnaryExpr); isNot && u.Op == token.NOT {
+						neg, e = true, an.Unparen(u.X)
+					}
+					if call, isCall := e.(*ast.CallExpr); isCall && an.IsCallTo(binfo, call, "(*jet.Arguments).IsSet") && len(call.Args) == 1 {
+						if id, isId := an.Unparen(call.Args[0]).(*ast.Ident); isId && an.ObjOf(binfo, id) == loopVar {
+							asked++
+							if val == neg { // IsSet(i) is false on this branch
+								st.Set("unset", "1")
+							}
+						}
+					}
+				},
+			}
+			x := p.NewExplorer(bi, hooks)
+			x.Run(nil)
+			c.States += x.Visited
+			ok, why = asked > 0, "the isset loop does not decide on a.IsSet(i) for the loop index"
+			sawT, sawF := false, false
+			for _, ex := range x.Exits {
+				if ex.Kind != an.ExitReturn || ex.Ret == nil || len(ex.Ret.Results) != 1 {
+					continue
+				}
+				switch boolVal(ex.Ret.Results[0]) {
+				case "T":
+					sawT = true
+					if ex.State.Get("unset") != "" || ex.State.Get("exhausted") == "" {
+						ok, why = false, "isset can answer true although an argument was found unset, or before every argument index was asked"
+					}
+				case "F":
+					sawF = true
+					if ex.State.Get("unset") == "" {
+						ok, why = false, "isset can answer false although no argument was found unset"
+					}
+				default:
+					ok, why = false, "isset returns "+an.Str(ex.Ret.Results[0])+", which is neither the true nor the false value"
+				}
+			}
+			if ok && !(sawT && sawF) {
+				ok, why = false, "isset does not answer true after all arguments passed and false at the first unset one"
 			}
 		}
-		_ = binfo
 		c.Check(ok, "C17.total", `init/"isset"/all-arguments`, bi.Pos(), "isset asks IsSet for every argument and answers false at the first false", why)
 	}
 
@@ -470,12 +508,37 @@ func c17lookup(c *an.Ctx) {
 			}
 			return true
 		})
-		pr := p.ProbeFn(f, nodes, an.Hooks{})
+		// a local may carry the answer: track which of the two boolean values it holds
+		boolConst := func(e ast.Expr) string {
+			switch an.Str(an.Unparen(e)) {
+			case "valueBoolTRUE":
+				return "valueBoolTRUE"
+			case "valueBoolFALSE":
+				return "valueBoolFALSE"
+			}
+			return ""
+		}
+		pr := p.ProbeFn(f, nodes, an.Hooks{PreAssign: func(x *an.Explorer, lhs, rhs ast.Expr, stmt ast.Node, st *an.State) {
+			if id, ok := an.Unparen(lhs).(*ast.Ident); ok && rhs != nil {
+				st.Set("bv:"+id.Name, boolConst(rhs))
+			}
+		}})
 		c.States += pr.X.Visited
 		okFirst, okTrue, okFalse := false, false, false
 		bad := ""
+		// role: the looked-up value is what the first target is bound to
+		valueName := "value"
 		for _, b := range binds {
-			for _, st := range pr.At[b.node] {
+			if b.target == 0 {
+				valueName = b.value
+			}
+		}
+		for _, b0 := range binds {
+			for _, st := range pr.At[b0.node] {
+				b := b0
+				if carried := st.Get("bv:" + b.value); carried != "" {
+					b.value = carried
+				}
 				lookup := false
 				for k, v := range st.Facts {
 					if v && strings.HasSuffix(an.PlainKey(k), ".IndexExprGetLookup") {
@@ -485,10 +548,10 @@ func c17lookup(c *an.Ctx) {
 				if !lookup {
 					continue
 				}
-				valid := an.FactIs(st, "value.IsValid()", true)
-				invalid := an.FactIs(st, "value.IsValid()", false)
+				valid := an.FactIs(st, valueName+".IsValid()", true)
+				invalid := an.FactIs(st, valueName+".IsValid()", false)
 				switch {
-				case b.target == 0 && b.value == "value":
+				case b.target == 0 && b.value == valueName:
 					okFirst = true
 				case b.target == 0:
 					bad = "the first target of the two-value lookup is bound to " + b.value + ", not to the looked-up value"
@@ -507,33 +570,81 @@ func c17lookup(c *an.Ctx) {
 	}
 	// the parser selects the form only for 2 targets, 1 index-expression source
 	if f := c.Fn("C17.lookup", "(*Template).assignmentOrExpression"); f != nil {
-		var store ast.Node
-		an.InspectOwn(f, func(n ast.Node) bool {
-			if as, ok := n.(*ast.AssignStmt); ok && len(as.Lhs) == 1 && an.Str(as.Lhs[0]) == "isIndexExprGetLookup" && an.Str(as.Rhs[0]) == "true" {
-				store = as
+		finfo := f.Info()
+		// roles from the constructor call newSet(pos, line, isLet, <flag>, <left>, <right>)
+		var flagVar, leftVar, rightVar *ast.Ident
+		for _, call := range p.CallsIn(f, "(*jet.Template).newSet") {
+			if len(call.Args) == 6 {
+				flagVar, _ = an.Unparen(call.Args[3]).(*ast.Ident)
+				leftVar, _ = an.Unparen(call.Args[4]).(*ast.Ident)
+				rightVar, _ = an.Unparen(call.Args[5]).(*ast.Ident)
 			}
-			return true
-		})
+		}
+		var store ast.Node
+		if flagVar != nil {
+			fo := an.ObjOf(finfo, flagVar)
+			an.InspectOwn(f, func(n ast.Node) bool {
+				if as, ok := n.(*ast.AssignStmt); ok && len(as.Lhs) == 1 && len(as.Rhs) == 1 && an.Str(as.Rhs[0]) == "true" {
+					if id, ok := as.Lhs[0].(*ast.Ident); ok && an.ObjOf(finfo, id) == fo {
+						store = as
+					}
+				}
+				return true
+			})
+		}
+		// names under which the length of a slice variable may be tested: len(v) or a local defined as len(v)
+		lenNames := func(v *ast.Ident) []string {
+			out := []string{"len(" + v.Name + ")"}
+			vo := an.ObjOf(finfo, v)
+			an.InspectOwn(f, func(n ast.Node) bool {
+				as, ok := n.(*ast.AssignStmt)
+				if !ok || len(as.Lhs) != len(as.Rhs) {
+					return true
+				}
+				for i, r := range as.Rhs {
+					if call, ok := an.Unparen(r).(*ast.CallExpr); ok && an.IsCallTo(finfo, call, "builtin.len") && len(call.Args) == 1 {
+						if aid, ok := an.Unparen(call.Args[0]).(*ast.Ident); ok && an.ObjOf(finfo, aid) == vo {
+							if lid, ok := as.Lhs[i].(*ast.Ident); ok {
+								out = append(out, lid.Name)
+							}
+						}
+					}
+				}
+				return true
+			})
+			return out
+		}
+		lenIs := func(st *an.State, names []string, n string) bool {
+			for _, nm := range names {
+				for k, v := range st.Facts {
+					pk := an.PlainKey(k)
+					if v && (pk == n+" == "+nm || pk == nm+" == "+n) {
+						return true
+					}
+				}
+				for k, v := range st.Regs {
+					if an.PlainKey(k) == "eq:"+nm && v == n {
+						return true
+					}
+				}
+			}
+			return false
+		}
 		ok := false
-		if store != nil {
+		if store != nil && leftVar != nil && rightVar != nil {
+			lnames, rnames := lenNames(leftVar), lenNames(rightVar)
 			pr := p.ProbeFn(f, []ast.Node{store}, an.Hooks{})
 			c.States += pr.X.Visited
 			ok = len(pr.At[store]) > 0
 			for _, st := range pr.At[store] {
-				two, one, idx := false, false, false
+				idx := false
 				for k, v := range st.Facts {
 					pk := an.PlainKey(k)
-					if v && (pk == "2 == len(left)" || pk == "len(left) == 2") {
-						two = true
-					}
-					if v && (pk == "1 == len(right)" || pk == "len(right) == 1") {
-						one = true
-					}
-					if v && strings.Contains(pk, "NodeIndexExpr == ") && strings.Contains(pk, "right[0].Type()") {
+					if v && strings.Contains(pk, "NodeIndexExpr == ") && strings.Contains(pk, rightVar.Name+"[0].Type()") {
 						idx = true
 					}
 				}
-				if !(two && one && idx) {
+				if !(lenIs(st, lnames, "2") && lenIs(st, rnames, "1") && idx) {
 					ok = false
 				}
 			}
